@@ -458,7 +458,7 @@ pub fn run(args: &Args) -> i32 {
     .assume("invoke payload size = bytes identifying the callee (node id / package address, blueprint and function names) + bytes of the argument value, as the kernel defines it; the argument bytes and the depth of entered frames are measured by the kernel hook; heap/track byte accounting is the engine's own (the check is exactness of the threshold: +1 byte <=> +1 limit, and the self-reported actual == max+1)")
     .assume("limit configurations keep max_event_size >= 64 (the system's own LockFeeEvent must fit) and key/value/payload limits above the sizes of the system's own substates and invocations");
     for q in QUANTITIES {
-        spec = spec.floor(&format!("c49:{q}:success_at_L"), args.tier.pick(60, 2000)).floor(&format!("c49:{q}:failure_at_L_plus_1:{}", expected_variant(q)), args.tier.pick(60, 2000));
+        spec = spec.floor(&format!("c49:{q}:success_at_L"), args.tier.pick(60, 600)).floor(&format!("c49:{q}:failure_at_L_plus_1:{}", expected_variant(q)), args.tier.pick(60, 600));
     }
     let mut report = Report::new(args, spec);
     if let Some(path) = &args.replay {
